@@ -64,6 +64,19 @@ class C02(Prop):
             ops.append(["set", xp, v2]); paths.append(list(path)); cur = X.ref_set(cur, path, v2)
             out.append({"stream": "ops", "tag": "rewrite-after-replace", "input": {"tree": t, "mode": rng.choice(["convert", "convert", "wrap", "json"]),
                                                                                    "ops": ops, "paths": paths}})
+        # keys with leading / trailing blanks, addressed as plain keys on the dictionary that holds them (a plain key is
+        # taken as it is; only the steps of a path are trimmed)
+        for _ in range(50 if tier == "quick" else 1200):
+            t = X.gen_tree(rng, 2, root="dict")
+            k = rng.choice([" total", "code ", "id\t", " n "])
+            t[k] = rng.choice([1, "x", None])
+            if rng.random() < 0.5:
+                t[k.strip()] = rng.choice([7, "twin"])
+            if rng.random() < 0.5:
+                t = dict(reversed(list(t.items())))
+            v = gen_value(rng)
+            out.append({"stream": "ops", "tag": "blank-padded-key",
+                        "input": {"tree": t, "mode": rng.choice(["wrap", "json", "convert"]), "ops": [["set", k, v]], "paths": [[k]]}})
         # a dictionary that also holds a literal key spelled like the path of an existing nested node: the assignment
         # replaces the nested node (what lookup of that string addresses), never the literal entry
         for _ in range(60 if tier == "quick" else 1500):
